@@ -31,6 +31,32 @@ def m(id, prop, expect, file, old, new, **kw):
 
 
 MUTANTS = [
+    # ---------------------------------------------------------------- C01
+    m("C01-kronsum-inplace", "C01", "no-narrowing-store@KronSum._matmat", OPS, "            out = out + xnp.moveaxis(Mev_front, 0, i)", "            out += xnp.moveaxis(Mev_front, 0, i)"),
+    m("C01-dense-no-promotion", "C01", "result-dtype@Dense._matmat", OPS, "        dtype = self.xnp.promote_types(self.dtype, X.dtype)\n        return self.xnp.cast(self.A, dtype) @ self.xnp.cast(X, dtype)",
+      "        return self.xnp.cast(self.A, X.dtype) @ X"),
+    m("C01-tridiag-buffer", "C01", "no-narrowing-store@Tridiagonal._matmat", OPS, "        output = self.beta * X\n", "        output = xnp.zeros(shape=X.shape, dtype=X.dtype, device=xnp.get_device(X))\n        output += self.beta * X\n"),
+    m("C01-moveaxis-not-inverse", "C01", "axis-pairing@Kronecker._matmat", OPS, "            ev = self.xnp.moveaxis(Mev_front, 0, i)", "            ev = self.xnp.moveaxis(Mev_front, i, 0)"),
+    m("C01-kron-split-rows", "C01", "contraction@Kronecker._matmat:split", OPS, "    def _matmat(self, v):\n        ev = v.reshape(*[Mi.shape[-1] for Mi in self.Ms], -1)\n        for i, M in enumerate(self.Ms):\n            ev_front = self.xnp.moveaxis(ev, i, 0)",
+      "    def _matmat(self, v):\n        ev = v.reshape(*[Mi.shape[-2] for Mi in self.Ms], -1)\n        for i, M in enumerate(self.Ms):\n            ev_front = self.xnp.moveaxis(ev, i, 0)"),
+    m("C01-to-dense-eye-size", "C01", "generic-path@LinearOperator.to_dense", BASE, "return self.xnp.eye(self.shape[-2], self.shape[-2], dtype=self.dtype, device=self.device) @ self", "return self.xnp.eye(self.shape[-1], self.shape[-1], dtype=self.dtype, device=self.device) @ self"),
+    m("C01-rmatmul-reshape", "C01", "generic-path@LinearOperator.__rmatmul__:1-D", BASE, "return self._rmatmat(X.reshape(1, -1)).reshape(-1)", "return self._rmatmat(X.reshape(-1, 1)).reshape(-1)"),
+    m("C01-transpose-shape", "C01", "generic-path@Transpose.__init__:shape", OPS, "class Transpose(LinearOperator):\n    \"\"\" Transpose of a Linear Operator\"\"\"\n    def __init__(self, A):\n        self.A = A\n        super().__init__(dtype=A.dtype, shape=(A.shape[1], A.shape[0]))",
+      "class Transpose(LinearOperator):\n    \"\"\" Transpose of a Linear Operator\"\"\"\n    def __init__(self, A):\n        self.A = A\n        super().__init__(dtype=A.dtype, shape=(A.shape[0], A.shape[1]))"),
+    m("C01-blockdiag-roles", "C01", "contraction@BlockDiag._matmat", OPS, "i_end = i + multiplicity * M.shape[-1]", "i_end = i + multiplicity * M.shape[-2]"),
+
+    m("C01-blockdiag-shape", "C01", "composite-metadata@BlockDiag.__init__:shape", OPS, "        shape = (sum(Mi.shape[-2] * c for Mi, c in zip(Ms, self.multiplicities)),\n                 sum(Mi.shape[-1] * c for Mi, c in zip(Ms, self.multiplicities)))",
+      "        shape = (Ms[0].shape[-2] * len(Ms), Ms[0].shape[-1] * len(Ms))"),
+    # ---------------------------------------------------------------- C20
+    m("C20-row-vector-length", "C20", "canonical-vector@arm1", BASE, "            case int(i):\n                ei = xnp.canonical(loc=i, shape=(self.shape[-2], ), dtype=self.dtype, device=self.device)", "            case int(i):\n                ei = xnp.canonical(loc=i, shape=(self.shape[-1], ), dtype=self.dtype, device=self.device)"),
+    m("C20-col-vector-length", "C20", "canonical-vector@arm3", BASE, "            case b, int(j):\n                ej = xnp.canonical(loc=j, shape=(self.shape[-1], ), dtype=self.dtype, device=self.device)", "            case b, int(j):\n                ej = xnp.canonical(loc=j, shape=(self.shape[-2], ), dtype=self.dtype, device=self.device)"),
+    m("C20-self-A", "C20", "attribute-exists@LinearOperator.__getitem__:self.A", BASE, "                    out.append((self @ ej)[idx])", "                    out.append((self.A @ ej)[idx])"),
+    m("C20-sliced-dtype", "C20", "slice-buffers@Sliced._matmat:dtype", OPS, "        dtype = xnp.promote_types(self.dtype, X.dtype)\n        Y = xnp.zeros(shape=(self.A.shape[-1], X.shape[-1]), dtype=dtype, device=device)", "        Y = xnp.zeros(shape=(self.A.shape[-1], X.shape[-1]), dtype=self.dtype, device=device)"),
+    m("C20-sliced-scatter-swapped", "C20", "slice-buffers@Sliced._matmat", OPS, "        Y = xnp.update_array(Y, X, end_slices)\n        output = self.A @ Y\n        return output[start_slices]", "        Y = xnp.update_array(Y, X, start_slices)\n        output = self.A @ Y\n        return output[end_slices]"),
+    m("C20-guard-mismatch", "C20", "guard-use@Sliced.__init__", OPS, "sl.cpu() if hasattr(sl, \"cpu\") else sl", "sl.cpu() if hasattr(sl, \"device\") else sl"),
+    m("C20-slice-roundtrip", "C20", "slice-roundtrip@Sliced.__init__", OPS, "        self.slices = slices\n        slices = tuple([sl.cpu()", "        slices = tuple([slice(*sl.indices(n)) if isinstance(sl, slice) else sl for sl, n in zip(slices, A.shape)])\n        self.slices = slices\n        slices = tuple([sl.cpu()"),
+    m("C20-shape-roles", "C20", "slice-shape@Sliced.__init__", OPS, "new_shape = np.arange(A.shape[0])[slices[0]].shape + np.arange(A.shape[1])[slices[1]].shape", "new_shape = np.arange(A.shape[0])[slices[1]].shape + np.arange(A.shape[1])[slices[0]].shape"),
+    m("C20-arm-removed", "C20", "case-coverage@LinearOperator.__getitem__", BASE, "            case list(li), list(lj):", "            case tuple(li), tuple(lj):"),
     # ---------------------------------------------------------------- C02
     m("C02-product-matmat-order", "C02", "left-product@Product._rmatmat", OPS, "for M in self.Ms[::-1]:\n            v = M @ v", "for M in self.Ms:\n            v = M @ v"),
     m("C02-default-rmatmat-conj", "C02", "left-product@LinearOperator._rmatmat[SelfAdjoint]", BASE,
